@@ -320,7 +320,7 @@ def explore(run):
     global _SCRATCH
     tier = run.tier
     jobs = int(os.environ.get("VERIF_JOBS", "0") or 0) or (os.cpu_count() or 8)
-    budget = float(os.environ.get("C13_BUDGET_S", "0") or 0) or (50.0 if tier == "quick" else 17 * 60.0)
+    budget = float(os.environ.get("C13_BUDGET_S", "0") or 0) or (44.0 if tier == "quick" else 17 * 60.0)
     t0 = time.time()
     mismatch = False
     with common.Scratch("c13") as sc:
@@ -329,7 +329,7 @@ def explore(run):
         failing = []  # deviation signatures of plans that failed (see M.enumerate_plans)
         levels = M.levels(tier)
         completed = []
-        slice_n = 1000 if tier == "quick" else 4000
+        slice_n = 500 if tier == "quick" else 4000
         for lvl in levels:
             capped = False
             n_total = n_run = 0
